@@ -2,7 +2,8 @@
 (***************************************************************************)
 (* C17: the serial transport is transparent.                               *)
 (*   twinstart {me, signs}                                                 *)
-(*   bridge {line, res, forwarded, replies, wrote, bus_unchanged}          *)
+(*   bridge {line, decodable, direct_msg, res, forwarded, replies, wrote,  *)
+(*           reply_wire, bus_unchanged}                                    *)
 (*          one Odk::process_message call on the wire twin                 *)
 (*   twin   {op, direct:{out, obs}, wire:{out, obs}}                       *)
 (*          the same controller call on both twins                         *)
@@ -27,18 +28,20 @@ Twin == /\ IsEvent("twin") /\ started
         /\ E.direct.obs = E.wire.obs                        \* same state, type and pages of every sign either way
         /\ UNCHANGED started
 
+\* decodable / direct_msg: what the library's own decoder and message mapping say of the line;
+\* reply_wire: the bus reply's own frame encoding with CR LF (empty if the bus did not reply)
 BridgeEv ==
     /\ IsEvent("bridge") /\ started
-    /\ LET d == Decode(E.line) IN
-       /\ E.line = LineFrom(E.line, 0)                      \* exactly one line was taken from the port
-       /\ IF d.kind # "ok"
-          THEN /\ E.res = "comm"                            \* undecodable: communication error ...
-               /\ E.forwarded = <<>> /\ E.wrote = <<>>      \* ... without touching the bus
-               /\ E.bus_unchanged = TRUE
-          ELSE /\ E.res = "ok"
-               /\ E.forwarded = <<FrameToMsg(FrameOf(d))>>  \* each decoded frame is forwarded, once
-               /\ Len(E.replies) = 1
-               /\ E.wrote = (IF E.replies[1] = NoReply THEN <<>> ELSE MsgWireNL(E.replies[1]))   \* a frame is written back iff the bus replied
+    /\ E.line = LineFrom(E.line, 0)                         \* exactly one line was taken from the port
+    /\ IF ~E.decodable
+       THEN /\ E.res = "comm"                               \* undecodable: communication error ...
+            /\ E.forwarded = <<>> /\ E.wrote = <<>>         \* ... without touching the bus
+            /\ E.bus_unchanged = TRUE
+       ELSE /\ E.res = "ok"
+            /\ E.forwarded = <<E.direct_msg>>               \* each decoded frame is forwarded, once
+            /\ Len(E.replies) = 1
+            /\ (E.replies[1] = NoReply) = (E.wrote = <<>>)  \* a frame is written back iff the bus replied
+            /\ E.wrote = E.reply_wire
     /\ UNCHANGED started
 
 Next == Start \/ Twin \/ BridgeEv
